@@ -155,11 +155,21 @@ pub fn window(s: &S) -> WindowStatement {
     // (window clause...) with (partition e) (orderby e ord [nulls]) (frame rows|range start [end])
     assert!(s.head() == "window");
     let mut w = WindowStatement::new();
+    let mut first = true;
     for c in s.args() {
         let l = c.args();
         match c.head() {
             "partition" => {
-                w.add_partition_by(expr(&l[0]));
+                // the first PARTITION BY item also through the constructors WindowStatement::partition_by(col) /
+                // partition_by_custom(text), when it is a plain column / raw text and comes first
+                let e = expr(&l[0]);
+                match (&e, first && exprs::shash(c) % 2 == 1) {
+                    (SimpleExpr::Custom(t), true) => w = WindowStatement::partition_by_custom(t.clone()),
+                    (SimpleExpr::Column(cr), true) => w = WindowStatement::partition_by(cr.clone()),
+                    _ => {
+                        w.add_partition_by(e);
+                    }
+                }
             }
             "orderby" => {
                 if l.len() > 2 {
@@ -190,6 +200,7 @@ pub fn window(s: &S) -> WindowStatement {
             }
             _ => panic!("window clause"),
         }
+        first = false;
     }
     if exprs::shash(s) % 3 == 0 {
         return w.take();
